@@ -9,6 +9,7 @@ import (
 	"os/exec"
 	"path/filepath"
 	"regexp"
+	"runtime/pprof"
 	"sort"
 	"strings"
 	"sync"
@@ -234,6 +235,7 @@ func runHarness(prog *ssa.Program, pkg *ssa.Package, dir, name string, concrete 
 	x := newExec(prog, pkg)
 	x.harness = name
 	x.concrete = concrete
+	x.deadline = time.Now().Add(240 * time.Second)
 	hr.x = x
 	hr.fn = fn
 	start := time.Now()
@@ -409,7 +411,19 @@ func main() {
 	trace := flag.Bool("trace", false, "trace calls")
 	dump := flag.Bool("dump", false, "dump failing queries")
 	jobs := flag.Int("j", 14, "solver workers")
+	cpuprof := flag.String("cpuprofile", "", "write a CPU profile of the engine")
 	flag.Parse()
+	if *cpuprof != "" {
+		f, err := os.Create(*cpuprof)
+		if err == nil {
+			pprof.StartCPUProfile(f)
+			go func() {
+				time.Sleep(90 * time.Second)
+				pprof.StopCPUProfile()
+				f.Close()
+			}()
+		}
+	}
 	traceCalls = *trace
 	if *replayPath != "" {
 		os.Exit(doReplay(*replayPath))
